@@ -218,11 +218,29 @@ func diffSets(want, got map[string]string) (missing, extra, changed []string) {
 
 func runSandbox(t testing.TB, c *ev.Collector) {
 	allow := allowList()
-	// (1) exact enumeration of an interpreter built by the server's constructor
-	walked, err := goWalk()
+	// (1) exact enumeration of interpreters built by the server's constructor:
+	// nine taken from one pool at the same time, i.e. the five pre-built ones
+	// and four created on demand
+	pool, err := goWalkPool(9)
 	if err != nil {
 		t.Fatalf("go walker: %v", err)
 	}
+	walked := pool[0]
+	for i, w := range pool {
+		if fmt.Sprint(w) != fmt.Sprint(walked) {
+			g := map[string]string{}
+			for _, r := range w {
+				g[r.Path] = r.Kind
+			}
+			f := map[string]string{}
+			for _, r := range walked {
+				f[r.Path] = r.Kind
+			}
+			missing, extra, changed := diffSets(f, g)
+			c.Violation("sandbox:pooled-interpreters-differ", fmt.Sprintf("interpreter #%d taken from the pool (the pool pre-builds 5, the rest are made on demand) differs from the first: missing %v, extra %v, changed %v", i+1, missing, extra, changed), map[string]any{"sub": "sandbox"})
+		}
+	}
+	c.Note("go walk: 9 simultaneously held interpreters of one pool compared")
 	got := map[string]string{}
 	var walkedNames []string
 	for _, r := range walked {
